@@ -260,17 +260,8 @@ class Sweep:
             self.chk.count("model-skip:unit-outside-wire-vocabulary")
             return
         kws = ";".join(f"{k}={core.f2b(v)}" for k, v in kw.items())
-        self.mlines.append("\t".join(["c09.convert", mode, eq if eq is not None else "-"] + fa + fb_ + [str(core.f2b(xv)), str(core.f2b(self.self_coeff(ua))), kws]))
+        self.mlines.append("\t".join(["c09.convert", mode, eq if eq is not None else "-"] + fa + fb_ + [str(core.f2b(xv)), kws]))
         self.mexpect.append((tag, expect, tol))
-
-    def self_coeff(self, u):
-        """the coefficient unyt's unit algebra gives the unit's own expression:
-        `_multiply_units(u, dimensionless)[0]` (1 unless two atoms share a dimension)"""
-        from unyt import Unit
-        from unyt.array import _multiply_units
-
-        U = Unit(u)
-        return float(_multiply_units(U, Unit(registry=U.registry))[0])
 
     # ---- covered requests ---------------------------------------------------------------
     def covered(self, n_units, with_quantity=True):
@@ -534,7 +525,7 @@ class Sweep:
                     try:
                         fa, fb_ = self.wire(ua), self.wire(ub)
                         for mode in ("copy", "inplace"):
-                            self.mlines.append("\t".join(["c09.convert", mode, eq] + fa + fb_ + [str(core.f2b(vals[0])), str(core.f2b(self.self_coeff(ua))), ""]))
+                            self.mlines.append("\t".join(["c09.convert", mode, eq] + fa + fb_ + [str(core.f2b(vals[0])), ""]))
                             self.mexpect.append((f"uncovered {eq} {ua}->{ub} {mode}", "err:InvalidUnitEquivalence", 0.0))
                     except ValueError:
                         pass
@@ -753,7 +744,7 @@ class Sweep:
                 except ValueError:
                     continue
                 kws = ";".join(f"{k}={core.f2b(val)}" for k, val in kw.items())
-                self.mlines.append("\t".join(["c09.convert", mode, eq if eq is not None else "-"] + fa + fb_ + [str(core.f2b(v)), str(core.f2b(self.self_coeff(ua))), kws]))
+                self.mlines.append("\t".join(["c09.convert", mode, eq if eq is not None else "-"] + fa + fb_ + [str(core.f2b(v)), kws]))
                 self.mexpect.append((f"wrapper {eq} {ua}->{ub} {mode} {kw}", exp, 2.0 ** -40 * 64))
 
 
@@ -769,8 +760,8 @@ def check_tables(chk, X, model):
     from unyt.equivalencies import equivalence_registry
 
     dimtab = dim_names()
-    lines = ["c09.names"]
-    meta = [("names", None)]
+    lines = ["c09.names", "c09.pow_refuses"]
+    meta = [("names", None), ("pow", None)]
     for n in X["constants"]:
         lines.append("c09.dump.const\t" + n)
         meta.append(("const", n))
@@ -795,6 +786,21 @@ def check_tables(chk, X, model):
         if kind == "names":
             if r[0] != "ok" or r[1].split(";") != list(equivalence_registry):
                 chk.disagree("c09.names", f"model {r} vs registry {list(equivalence_registry)}")
+        elif kind == "pow":
+            from unyt import unyt_array
+
+            try:
+                np.power(unyt_array(np.array([1.0]), "degC"), 4)
+                live = "none"
+            except Exception as e:
+                live = core.exc_name(e)
+            known = {"UnitOperationError", "UnitConversionError", "UnitParseError", "InvalidUnitOperation", "UnitInconsistencyError",
+                     "InvalidUnitEquivalence", "TypeError", "ValueError", "RuntimeError", "KeyError"}
+            if live != "none" and live not in known:
+                live = "Other"
+            chk.count("pow-refuses-offset:" + live)
+            if r[0] != "ok" or r[1] != live:
+                chk.disagree("c09.pow_refuses", f"model {r} vs np.power(1 degC, 4): {live}")
         elif kind == "const":
             live = float(getattr(pc, arg).in_mks().v)
             if r[0] != "ok" or int(r[1]) != core.f2b(live) or r[2] != gen.dim_vec(getattr(pc, arg).units.dimensions):
